@@ -108,7 +108,8 @@ def order_snapshot(o, name):
             "created": ms(o.date_time_created), "placed": ms(o.responses.date_time_placed), "stat_t": ms(o.date_time_status_update),
             "done_t": ms(o.date_time_execution_complete), "profit": o.profit, "upd": dict(o.update_data),
             "trade_status": o.trade.status.value, "trade_log": [x.value for x in o.trade.status_log], "trade": o.trade.id[:8],
-            "trade_pending_orders": bool(o.trade.pending_orders)}
+            "trade_pending_orders": bool(o.trade.pending_orders),
+            "cancel_resp": [getattr(r, "status", None) for r in o.responses.cancel_responses], "update_resp": [getattr(r, "status", None) for r in o.responses.update_responses]}
 
 
 def run_scenario(sc, observe="all"):
